@@ -450,7 +450,7 @@ def q2R(q: np.ndarray, version: int = 1) -> np.ndarray:
         raise ValueError("Version must be an int equal to 1 or 2.")
     if q.ndim > 1:
         # Convert multiple quaternions
-        q /= np.linalg.norm(q, axis=1)[:, None]     # Normalize all quaternions
+        q = q/np.linalg.norm(q, axis=1)[:, None]     # Normalize all quaternions
         R = np.zeros((q.shape[0], 3, 3))
         if version == 1:
             R[:, 0, 0] = 1.0 - 2.0*(q[:, 2]**2 + q[:, 3]**2)
@@ -468,7 +468,7 @@ def q2R(q: np.ndarray, version: int = 1) -> np.ndarray:
         R[:, 1, 2] = 2.0*(q[:, 2]*q[:, 3]-q[:, 0]*q[:, 1])
         return R
     # Convert single quaternion
-    q /= np.linalg.norm(q)
+    q = q/np.linalg.norm(q)
     if version == 1:
         return np.array([
             [1.0-2.0*(q[2]**2+q[3]**2), 2.0*(q[1]*q[2]-q[0]*q[3]), 2.0*(q[1]*q[3]+q[0]*q[2])],
